@@ -219,6 +219,10 @@ func genSentinel(seed uint64, tier, variant string) any {
 			// clean failover: roles first, then every sentinel announces it (in a seeded order)
 			n := other(cur)
 			add(GhostSpec{Kind: "failover", Node: n})
+			if !calm && r.IntN(3) == 0 {
+				// an instance event reaches the client before any sentinel names the new master
+				add(GhostSpec{Kind: "event", Node: sentCurrent, Argv: []string{pick(r, "+slave", "+reboot", "-sdown"), "slave", strconv.Itoa(pick(r, n, cur))}})
+			}
 			if r.IntN(2) == 0 {
 				add(GhostSpec{Kind: "view", Node: sentCurrent, Argv: []string{strconv.Itoa(n), "pub"}})
 			}
@@ -283,7 +287,14 @@ func genSentinel(seed uint64, tier, variant string) any {
 		}
 	}
 	// where the story ends: the node every sentinel finally agrees on (announced by +switch-master in the closing phase)
-	p.X["final"] = pick(r, cur, cur, other(cur))
+	p.X["final"] = pick(r, cur, other(cur), other(cur))
+	// the node the sentinels named before may go on answering ROLE as master (a deposed master that has not heard of it)
+	p.X["stale_old"] = r.IntN(2) == 0
+	// the last fault: the first dial after the final announcement is refused (the switch fails once and must be retried)
+	p.X["final_fault"] = pick(r, "", "", "refuse-dial")
+	if calm {
+		p.X["final_fault"] = ""
+	}
 	return p
 }
 
@@ -322,6 +333,7 @@ type sentRun struct {
 	viewMaster   []int // per sentinel: index of the data node its view names as master
 	downCurrent  int
 	settledAt    []bool // per scheduler step: no internal goroutine of the client had anything left to do
+	viewEarly    map[int][2]int // announced view changes whose announcement is still deferred: op index -> (sentinel, old master)
 }
 
 func (sr *sentRun) sim() *sched.Sim { return sr.e.sim }
@@ -542,13 +554,36 @@ func (sr *sentRun) subscribedSentinel() int {
 	return -1
 }
 
+// applyView makes sentinel g.Node name data node g.Argv[0] as master (once) and, when publish is set, announces it.
+func (sr *sentRun) applyView(i int, g GhostSpec, publish bool) {
+	n, _ := strconv.Atoi(g.Argv[0])
+	st, done := sr.viewEarly[i]
+	if !done {
+		node := g.Node
+		if node == sentCurrent {
+			if node = sr.subscribedSentinel(); node < 0 {
+				node = 0
+			}
+		}
+		st = [2]int{node, sr.viewMaster[node]}
+		sr.viewEarly[i] = st
+		sr.setView(node, n)
+	}
+	if publish {
+		w := sr.sim().W
+		sr.publishAndDeliver(st[0], func() int {
+			return w.Sentinel.Publish(sentAddrs[st[0]], "+switch-master", sentSet+" "+hostPort(sentDataAddrs[st[1]])+" "+hostPort(sentDataAddrs[n]))
+		})
+	}
+}
+
 const sentCurrent = 9 // GhostSpec.Node: "the sentinel the client is subscribed to when the operation is applied"
 
 func (sr *sentRun) applyOp(g GhostSpec) {
 	s := sr.sim()
 	w := s.W
 	atoi := func(x string) int { n, _ := strconv.Atoi(x); return n }
-	if (g.Kind == "view" || g.Kind == "event" || g.Kind == "sent-down") && g.Node == sentCurrent {
+	if (g.Kind == "event" || g.Kind == "sent-down") && g.Node == sentCurrent {
 		if g.Node = sr.subscribedSentinel(); g.Node < 0 {
 			g.Node = 0
 		}
@@ -572,17 +607,6 @@ func (sr *sentRun) applyOp(g GhostSpec) {
 			if i != g.Node {
 				w.Demote(a, sentDataAddrs[g.Node])
 			}
-		}
-	case "view":
-		n := atoi(g.Argv[0])
-		old := sr.viewMaster[g.Node]
-		if g.Argv[1] == "pub" {
-			sr.setView(g.Node, n)
-			sr.publishAndDeliver(g.Node, func() int {
-				return w.Sentinel.Publish(sentAddrs[g.Node], "+switch-master", sentSet+" "+hostPort(sentDataAddrs[old])+" "+hostPort(sentDataAddrs[n]))
-			})
-		} else {
-			sr.setView(g.Node, n)
 		}
 	case "event":
 		ch, role, inst := g.Argv[0], g.Argv[1], atoi(g.Argv[2])
@@ -731,7 +755,7 @@ func execSentinel(t *testing.T, plan any, out *Outcome) {
 	bgNamer.Store(&bg)
 	defer bgNamer.Store(nil)
 	sr := &sentRun{e: e, p: p, mode: xStr(p, "mode", "primary"), pred: xStr(p, "pred", "readonly"), muxSeq: map[string]int{},
-		wlog: map[int][]sentWrite{}, lastW: map[int]int{}, opDone: make([]bool, len(p.Ghosts)), viewMaster: make([]int, len(sentAddrs))}
+		wlog: map[int][]sentWrite{}, lastW: map[int]int{}, opDone: make([]bool, len(p.Ghosts)), viewMaster: make([]int, len(sentAddrs)), viewEarly: map[int][2]int{}}
 	out.Config = fmt.Sprintf("mode=%s,pred=%s,calm=%v,ap=%v,retry=%v,ops=%d", sr.mode, sr.pred, p.X["calm"], p.Opt.AlwaysPipelining, !p.Opt.DisableRetry, len(p.Ghosts))
 
 	// the world: data nodes, sentinels, a consistent initial view
@@ -751,7 +775,11 @@ func execSentinel(t *testing.T, plan any, out *Outcome) {
 	}
 	for i, g := range p.Ghosts {
 		if g.MinStep < 0 {
-			sr.applyOp(g)
+			if g.Kind == "view" {
+				sr.applyView(i, g, false)
+			} else {
+				sr.applyOp(g)
+			}
 			sr.opDone[i] = true
 		}
 	}
@@ -822,14 +850,22 @@ func execSentinel(t *testing.T, plan any, out *Outcome) {
 			if s.Step < sr.base+g.MinStep {
 				return nil // operations become due in plan order
 			}
+			i, g := i, g
 			if !sr.gateOK(g) {
 				sr.deferredOps++
+				if _, early := sr.viewEarly[i]; g.Kind == "view" && !early {
+					// the sentinel changes its mind now; only the announcement waits (as a message delayed on its way)
+					return []sched.Event{{Kind: "env", Key: fmt.Sprintf("g%d:view-unannounced", i), Weight: 1.5, Do: func() { sr.applyView(i, g, false) }}}
+				}
 				continue // deferred, not dropped; operations that need no gate may overtake it
 			}
-			i, g := i, g
 			return []sched.Event{{Kind: "env", Key: fmt.Sprintf("g%d:%s", i, g.Kind), Weight: 1.5, Do: func() {
 				sr.opDone[i] = true
-				sr.applyOp(g)
+				if g.Kind == "view" {
+					sr.applyView(i, g, g.Argv[1] == "pub")
+				} else {
+					sr.applyOp(g)
+				}
 			}}}
 		}
 		return nil
@@ -874,11 +910,26 @@ func execSentinel(t *testing.T, plan any, out *Outcome) {
 	for i := range sentAddrs {
 		sr.setView(i, final)
 	}
+	if b, _ := p.X["stale_old"].(bool); b {
+		// one deposed master at most, so that a real replica remains for clients that need one
+		si := sr.subscribedSentinel()
+		if si < 0 {
+			si = 0
+		}
+		if o := prevView[si]; o != final {
+			s.W.Promote(sentDataAddrs[o])
+			out.probe("deposed-master-still-answers-master")
+		}
+	}
 	s.Cfg.DrainBound = 30 * time.Second
 	settled := sr.waitQuiet(4000)
 	if settled {
 		// every sentinel announces the switch; the client hears the one it is subscribed to
 		sr.finalPubStep = s.Step
+		if xStr(p, "final_fault", "") == "refuse-dial" {
+			s.Faults = append(s.Faults, &sched.Fault{Kind: "refuse-dial", AtStep: s.Step})
+			out.probe("dial-refused-during-final-switch")
+		}
 		for i := range sentAddrs {
 			i := i
 			sr.finalDeliv += sr.publishAndDeliver(i, func() int {
